@@ -80,6 +80,7 @@ impl StyledStr {
         let mut new = String::with_capacity(self.0.len());
 
         let mut last = 0;
+        let mut at_line_start = false;
         let mut wrapper = crate::output::textwrap::wrap_algorithms::LineWrapper::new(hard_width);
         for content in self.iter_text() {
             // Preserve styling
@@ -89,12 +90,13 @@ impl StyledStr {
             }
             last = current + content.len();
 
-            for (i, line) in content.split_inclusive('\n').enumerate() {
-                if 0 < i {
-                    // reset char count on newline, skipping the start as we might have carried
-                    // over from a prior block of styled text
+            for line in content.split_inclusive('\n') {
+                if at_line_start {
+                    // reset char count on newline, but not at the start of a block of styled text
+                    // that carries on a line begun by a prior block
                     wrapper.reset();
                 }
+                at_line_start = line.ends_with('\n');
                 let line = crate::output::textwrap::word_separators::find_words_ascii_space(line)
                     .collect::<Vec<_>>();
                 new.extend(wrapper.wrap(line));
